@@ -86,3 +86,25 @@ pub open spec fn rel_fun<F: Fn(u32) -> u32>(f: F, p1: Partition, b: u32) -> spec
 // call_requires / call_ensures through a reference (so that a closure's contract can mention a captured function without moving it)
 pub open spec fn fn_req<F: Fn(u32) -> u32>(f: &F, y: u32) -> bool { call_requires(*f, (y,)) }
 pub open spec fn fn_ens<F: Fn(u32) -> u32>(f: &F, y: u32, v: u32) -> bool { call_ensures(*f, (y,), v) }
+
+// bp_refined stated over a relation rel(x, answer) instead of a closure
+pub open spec fn bp_refined_rel(p2: BasePartition, p1: BasePartition, i: int, rel: spec_fn(u32, bool) -> bool, r: (u32, u32)) -> bool {
+    &&& p2.size == p1.size
+    &&& if r.0 == 0 {
+            r.1 == i && p2.block@.len() == p1.block@.len() && (forall|x: u32| bp_in(p1, i, x) ==> #[trigger] rel(x, false))
+        } else if r.1 == 0 {
+            r.0 == i && p2.block@.len() == p1.block@.len() && (forall|x: u32| bp_in(p1, i, x) ==> #[trigger] rel(x, true))
+        } else {
+            &&& r.0 == i && r.1 == p1.block@.len() && p2.block@.len() == p1.block@.len() + 1
+            &&& forall|x: u32| #[trigger] bp_in(p2, i, x) ==> bp_in(p1, i, x) && rel(x, true)
+            &&& forall|x: u32| #[trigger] bp_in(p2, r.1 as int, x) ==> bp_in(p1, i, x) && rel(x, false)
+            &&& forall|x: u32| #[trigger] bp_in(p1, i, x) ==> bp_in(p2, i, x) || bp_in(p2, r.1 as int, x)
+        }
+    &&& (r.0 == 0 || r.1 == 0) ==> (forall|x: u32| bp_in(p2, i, x) == #[trigger] bp_in(p1, i, x))
+    &&& forall|b: int, x: u32| 0 <= b < p1.block@.len() && b != i ==> bp_in(p2, b, x) == #[trigger] bp_in(p1, b, x)
+}
+
+// the same through a reference (for closure contracts, which must not move what they capture)
+pub open spec fn pt_wf_r(p: &Partition) -> bool { pt_wf(*p) }
+pub open spec fn pt_size_r(p: &Partition) -> usize { p.base.size }
+pub open spec fn pt_bid_r(p: &Partition, x: u32) -> u32 { pt_bid(*p, x) }
